@@ -197,6 +197,7 @@ class RunCtx:
         k = self.k
         return {
             "full_trace": k.full,
+            "sites_seen": sorted(k.sites_seen) if k.sites_seen is not None else None,
             "thread_excs": self.thread_excs,
             "digest": k.digest(),
             "tape": {str(a): b for a, b in k.tape_out.items()} if not k.replay else None,
@@ -250,3 +251,39 @@ class RunCtx:
         k = self.k
         ok = k.wait_quiescent(timeout, include=lambda r: r.kind == "thread")
         return ok
+
+
+def profile_sites(engine, nruns=24, tier="quick", keep=None):
+    """Which traced source lines does this engine's workload actually execute?
+
+    Runs a few generated cases with line recording (forked children) and returns the sorted union of
+    executed (file, line) sites; used to aim site-focused pre-emption at code that runs."""
+    import random
+
+    from . import runner
+
+    seen = set()
+    for i in range(nruns):
+        seed = 7_000_000 + i
+        case = engine.gen_case(random.Random(seed), tier, seed)
+        case = dict(case)
+        case["knobs"] = dict(case["knobs"], record_sites=True, policy="random", sites=[])
+        res = runner.exec_case(engine, case)
+        for s_ in res.get("sites_seen") or ():
+            if keep is None or s_[0] in keep:
+                seen.add(tuple(s_))
+    return sorted(seen)
+
+
+def pick_sites(rng, hot_sites, k):
+    """k pre-emption sites: file drawn uniformly, then a line of it (small helper modules get as
+    much attention as big ones)."""
+    by_file = {}
+    for f, ln in hot_sites:
+        by_file.setdefault(f, []).append(ln)
+    files = sorted(by_file)
+    out = []
+    for _ in range(k):
+        f = rng.choice(files)
+        out.append([f, rng.choice(by_file[f])])
+    return out
